@@ -269,7 +269,27 @@ def check_free_symbols(ctx, classes):
             if isinstance(g, (ast.GeneratorExp, ast.ListComp)) and len(g.generators) == 2 and not any(x.ifs for x in g.generators):
                 g0, g1 = g.generators
                 ok = norm(g0.iter) in ("self._operations", "self.operations") and norm(g1.iter) == f"{norm(g0.target)}.free_symbols" and norm(g.elt) == norm(g1.target) and count_reversals(g) == 0
-    ctx.check(ok and len(rets) == 1, R4, cf.key, "first-appearance order over the operations", "Circuit.free_symbols does not list each symbol once, in order of first appearance over the operations", cf)
+    if not ok and len(rets) == 1:
+        # third spelling: an insertion-ordered dict filled per operation, `d.update(dict.fromkeys(op.free_symbols))`, returned as list(d)
+        e = rets[0]
+        if isinstance(e, ast.Call) and dotted(e.func) == "list" and len(e.args) == 1 and isinstance(e.args[0], ast.Name):
+            dn = e.args[0].id
+            for l in [x for x in body_walk(cf.node) if isinstance(x, ast.For) and norm(x.iter) in ("self._operations", "self.operations")]:
+                ups = [c for st in l.body for c in ast.walk(st) if isinstance(c, ast.Call) and isinstance(c.func, ast.Attribute) and c.func.attr == "update" and norm(c.func.value) == dn and len(c.args) == 1]
+                if len(l.body) == 1 and len(ups) == 1 and isinstance(ups[0].args[0], ast.Call) and dotted(ups[0].args[0].func) == "dict.fromkeys" and len(ups[0].args[0].args) == 1 and norm(ups[0].args[0].args[0]) == f"{norm(l.target)}.free_symbols":
+                    ok = True
+    walks_ops = any(isinstance(x, (ast.For, ast.comprehension)) and norm(x.iter) in ("self._operations", "self.operations") for x in ast.walk(cf.node))
+    by_text = [x for x in ast.walk(cf.node) if (isinstance(x, ast.Attribute) and x.attr == "name") or (isinstance(x, ast.Call) and dotted(x.func) in ("str", "repr", "hash", "id"))]
+    if not ok and by_text:
+        ctx.violation(R4, cf.key, f"Circuit.free_symbols identifies symbols by `{short(by_text[0])}` rather than by the symbol itself: two different symbols that share a name (different assumptions, Dummy symbols) are reported once, so a parameter the circuit still depends on is missing from free_symbols", cf)
+        walks_ops = False
+        rets = [None, None]
+    if not ok and len(rets) == 1 and walks_ops and not any(isinstance(x, ast.Call) and (dotted(x.func) or "").split(".")[-1] in ("sorted", "reversed", "set", "frozenset") for x in ast.walk(cf.node)) and count_reversals(cf.node) == 0:
+        # the operations are walked in order and nothing sorts / reverses / goes through a set, but the de-duplication idiom is not one of
+        # the recognised ones: construct lost, not a decided violation
+        ctx.undecided(R4, cf.key, "cannot recognise how Circuit.free_symbols keeps each symbol once in order of first appearance", cf)
+    elif not (not ok and by_text):
+      ctx.check(ok and len(rets) == 1, R4, cf.key, "first-appearance order over the operations", "Circuit.free_symbols does not list each symbol once, in order of first appearance over the operations", cf)
 
 
 def check_replace_calls(ctx):
